@@ -433,40 +433,33 @@ Qed.
 
 (** * QueryParamsRemover.RemoveFrom *)
 
-(** the repaired RemoveFrom, for EVERY query: whatever was to be removed is gone
-    and every other parameter keeps its values, in order *)
-Theorem remove_from_spec names q k :
+(** RemoveFrom with the repair of C15-F1 (or of C15-F6), for EVERY query: whatever
+    was to be removed is gone and every other parameter keeps its values, in order *)
+Theorem remove_from_spec m names q k :
+  qf1 m = true \/ qf6 m = true ->
   names <> [] -> q <> EmptyString ->
-  values_get k (fst (parse_query (remove_from_fx true names q))) =
+  values_get k (fst (parse_query (remove_from_q m names q))) =
   if mem_name k names then [] else values_get k (fst (parse_query q)).
 Proof.
-  intros Hn Hq. unfold remove_from_fx.
+  intros Hm Hn Hq. unfold remove_from_q.
   destruct q as [|c q']; [congruence|]. destruct names as [|n names']; [congruence|].
   simpl is_empty. simpl is_nil. cbv iota. simpl orb. cbv iota.
+  destruct (qf6 m) eqn:E6; [apply removed_raw|].
+  destruct Hm as [Hm|Hm]; [|congruence]. rewrite Hm.
   destruct (parse_query (String c q')) as [vals err] eqn:Ep. destruct err.
   - rewrite removed_raw, Ep. reflexivity.
   - pose proof (removed_encoded (n :: names') (String c q') k) as H. rewrite Ep in H. exact H.
 Qed.
 
-(** before the repair: the same, provided the query parses *)
+(** before the repairs: the same, provided the query parses *)
 Theorem remove_from_spec_pinned names q k :
   names <> [] -> q <> EmptyString -> snd (parse_query q) = false ->
-  values_get k (fst (parse_query (remove_from_fx false names q))) =
+  values_get k (fst (parse_query (remove_from_q {| qf1 := false; qf6 := false |} names q))) =
   if mem_name k names then [] else values_get k (fst (parse_query q)).
 Proof.
-  intros Hn Hq He. unfold remove_from_fx.
+  intros Hn Hq He. unfold remove_from_q.
   destruct q as [|c q']; [congruence|]. destruct names as [|n names']; [congruence|].
-  simpl is_empty. simpl is_nil. cbv iota. simpl orb. cbv iota.
+  simpl is_empty. simpl is_nil. cbv iota. simpl orb. cbv iota. cbn [qf6 qf1].
   destruct (parse_query (String c q')) as [vals err] eqn:Ep. simpl in He. subst err.
   pose proof (removed_encoded (n :: names') (String c q') k) as H. rewrite Ep in H. exact H.
-Qed.
-
-(** the result of Encode parses without error *)
-Lemma remove_from_no_error names q :
-  snd (parse_query q) = false -> snd (parse_query (remove_from_fx true names q)) = false.
-Proof.
-  intro He. unfold remove_from_fx. destruct (is_empty q || is_nil names); [exact He|].
-  destruct (parse_query q) as [vals err] eqn:Ep. simpl in He. subst err.
-  destruct (parse_encode (del_all names vals)) as [H _]; [|exact H].
-  apply nodup_del_all. pose proof (nodup_parse_query q) as Hn. rewrite Ep in Hn. exact Hn.
 Qed.
